@@ -12,7 +12,7 @@ macro "inv_num" : tactic =>
 theorem inv_parser (s s' : SSys) (h : Inv s) (hn : snext s .parser = some s') : Inv s' := by
   obtain ⟨h1, h2, h3, h4, h5, h6, h7, h8, h9, h10, h11, h12, h13, h14⟩ := h
   obtain ⟨qcap, queueLen, consumer, inbuf, ppc, seqs, seqsClosed, closeSig, closedSig, ipc, killSig, winchSig, olds, callers, closedFlag,
-    suspendedFlag, suspLock, quitCloses, da1Pending, da1First, resumeClears⟩ := s
+    suspendedFlag, suspLock, quitCloses, da1Pending, da1First, resumeClears, waitDrains, postQuitArm⟩ := s
   have hb1 := b2n_le closedFlag; have hb2 := b2n_le suspendedFlag; have hb3 := b2n_le seqsClosed
   simp only [snext] at hn
   split at hn
@@ -37,7 +37,7 @@ theorem inv_consume (s s' : SSys) (h : Inv s) (hn : snext s .consume = some s') 
 theorem inv_termReply (s s' : SSys) (h : Inv s) (hn : snext s .termReply = some s') : Inv s' := by
   obtain ⟨h1, h2, h3, h4, h5, h6, h7, h8, h9, h10, h11, h12, h13, h14⟩ := h
   obtain ⟨qcap, queueLen, consumer, inbuf, ppc, seqs, seqsClosed, closeSig, closedSig, ipc, killSig, winchSig, olds, callers, closedFlag,
-    suspendedFlag, suspLock, quitCloses, da1Pending, da1First, resumeClears⟩ := s
+    suspendedFlag, suspLock, quitCloses, da1Pending, da1First, resumeClears, waitDrains, postQuitArm⟩ := s
   have hp1 := pR_le ppc; have hp2 := pX_le ppc; have hp3 := pD_le ppc; have hp4 := pE_le ppc
   simp only [snext] at hn
   split at hn <;> simp only [Option.some.injEq, reduceCtorEq] at hn
@@ -48,7 +48,7 @@ theorem inv_termReply (s s' : SSys) (h : Inv s) (hn : snext s .termReply = some 
 theorem inv_termInput (s s' : SSys) (u : Option Nat) (h : Inv s) (hn : snext s (.termInput u) = some s') : Inv s' := by
   obtain ⟨h1, h2, h3, h4, h5, h6, h7, h8, h9, h10, h11, h12, h13, h14⟩ := h
   obtain ⟨qcap, queueLen, consumer, inbuf, ppc, seqs, seqsClosed, closeSig, closedSig, ipc, killSig, winchSig, olds, callers, closedFlag,
-    suspendedFlag, suspLock, quitCloses, da1Pending, da1First, resumeClears⟩ := s
+    suspendedFlag, suspLock, quitCloses, da1Pending, da1First, resumeClears, waitDrains, postQuitArm⟩ := s
   have hp1 := pR_le ppc; have hp2 := pX_le ppc; have hp3 := pD_le ppc; have hp4 := pE_le ppc
   simp only [snext, Option.some.injEq] at hn
   subst hn
@@ -73,7 +73,7 @@ theorem inv_addClose (s : SSys) (k : Bool) (h : Inv s) :
     Inv { s with killSig := k, callers := s.callers ++ [closeCaller] } := by
   obtain ⟨h1, h2, h3, h4, h5, h6, h7, h8, h9, h10, h11, h12, h13, h14⟩ := h
   obtain ⟨qcap, queueLen, consumer, inbuf, ppc, seqs, seqsClosed, closeSig, closedSig, ipc, killSig, winchSig, olds, callers, closedFlag,
-    suspendedFlag, suspLock, quitCloses, da1Pending, da1First, resumeClears⟩ := s
+    suspendedFlag, suspLock, quitCloses, da1Pending, da1First, resumeClears, waitDrains, postQuitArm⟩ := s
   refine ⟨h1, h2, h3, ?_, ?_, ?_, ?_, h8, ?_, ?_, ?_, h12, ?_, ?_⟩ <;> env_num
 
 /-- What a step of an input goroutine does to the shared state. -/
@@ -143,7 +143,8 @@ theorem inv_drain (s s' : SSys) (j : Nat) (h : Inv s) (hn : snext s (.drain j) =
   split at hn
   · simp at hn
   · split at hn
-    · simp only [Option.some.injEq] at hn; subst hn
+    · split at hn <;> simp only [Option.some.injEq, reduceCtorEq] at hn
+      subst hn
       exact inv_seqs s _ h
     · simp at hn
 
@@ -159,7 +160,7 @@ macro "caller_num" h:term : tactic =>
 theorem inv_caller (s s' : SSys) (j : Nat) (h : Inv s) (hn : snext s (.caller j) = some s') : Inv s' := by
   obtain ⟨h1, h2, h3, h4, h5, h6, h7, h8, h9, h10, h11, h12, h13, h14⟩ := h
   obtain ⟨qcap, queueLen, consumer, inbuf, ppc, seqs, seqsClosed, closeSig, closedSig, ipc, killSig, winchSig, olds, callers, closedFlag,
-    suspendedFlag, suspLock, quitCloses, da1Pending, da1First, resumeClears⟩ := s
+    suspendedFlag, suspLock, quitCloses, da1Pending, da1First, resumeClears, waitDrains, postQuitArm⟩ := s
   have hp1 := pR_le ppc; have hp2 := pX_le ppc; have hp3 := pD_le ppc; have hp4 := pE_le ppc
   have hb1 := b2n_le closedFlag; have hb2 := b2n_le suspendedFlag; have hb3 := b2n_le suspLock
   dsimp only at *
@@ -247,7 +248,7 @@ theorem inv_signal (s s' : SSys) (h : Inv s) (hn : snext s .signal = some s') : 
 theorem inv_callSuspend (s s' : SSys) (h : Inv s) (hn : snext s .callSuspend = some s') : Inv s' := by
   obtain ⟨h1, h2, h3, h4, h5, h6, h7, h8, h9, h10, h11, h12, h13, h14⟩ := h
   obtain ⟨qcap, queueLen, consumer, inbuf, ppc, seqs, seqsClosed, closeSig, closedSig, ipc, killSig, winchSig, olds, callers, closedFlag,
-    suspendedFlag, suspLock, quitCloses, da1Pending, da1First, resumeClears⟩ := s
+    suspendedFlag, suspLock, quitCloses, da1Pending, da1First, resumeClears, waitDrains, postQuitArm⟩ := s
   simp only [snext, Option.some.injEq] at hn
   subst hn
   refine ⟨h1, h2, h3, ?_, ?_, ?_, ?_, h8, ?_, ?_, ?_, h12, ?_, ?_⟩ <;> env_num
@@ -263,15 +264,17 @@ theorem inv_resume (s s' : SSys) (h : Inv s) (hn : snext s .resume = some s')
   have e5 := sumBy_le_unret fActive (fun c => by obtain ⟨pc, k⟩ := c; cases pc <;> cases k <;> simp [fActive, fUnret]) s.callers
   obtain ⟨h1, h2, h3, h4, h5, h6, h7, h8, h9, h10, h11, h12, h13, h14⟩ := h
   obtain ⟨qcap, queueLen, consumer, inbuf, ppc, seqs, seqsClosed, closeSig, closedSig, ipc, killSig, winchSig, olds, callers, closedFlag,
-    suspendedFlag, suspLock, quitCloses, da1Pending, da1First, resumeClears⟩ := s
+    suspendedFlag, suspLock, quitCloses, da1Pending, da1First, resumeClears, waitDrains, postQuitArm⟩ := s
   simp only [snext] at hn
   split at hn <;> simp only [Option.some.injEq, reduceCtorEq] at hn
   rename_i hc
   simp only [Bool.and_eq_true, beq_iff_eq, Bool.not_eq_true'] at hc
   obtain ⟨hc1, hc2⟩ := hc
   subst hc1; subst hc2; subst hn
-  simp only at h2 hopen; subst h2; subst hopen
+  simp only at h2 hopen
+  obtain ⟨h2a, h2b, h2c⟩ := h2
+  subst h2a; subst hopen
   simp only [idle] at hidle
-  refine ⟨h1, rfl, h3, h4, h5, h6, ?_, ?_, ?_, ?_, ?_, ?_, ?_, ?_⟩ <;> env_num
+  refine ⟨h1, ⟨rfl, h2b, h2c⟩, h3, h4, h5, h6, ?_, ?_, ?_, ?_, ?_, ?_, ?_, ?_⟩ <;> (try simp only [↓reduceIte]) <;> env_num
 
 end VaxisModel.Lemmas.ConcInv
